@@ -39,15 +39,19 @@ theorem rcb_len_mismatch_reported (i : Input)
 example : run {} .rcb { parts := [0, 0], weights := [1, 1], points := 0 }
     = ⟨.err (.inputLenMismatch 2 0), .none⟩ := by decide
 
-/-- Rib computes the oriented bounding box of a non-empty point set before it
-looks at the lengths; that computation is floating-point linear algebra
-outside the model (`obbOk`). -/
-theorem rib_len_mismatch_reported (i : Input) (hobb : i.obbOk = true)
+/-- Rib validates the lengths before it builds its frame (the oriented bounding box, floating-point
+linear algebra outside the model: `obbOk`), so a mismatch is reported whatever the points are. -/
+theorem rib_len_mismatch_reported (i : Input)
     (h : i.weights.length ≠ i.parts.length ∨ i.points ≠ i.parts.length) :
     run {} .rib i = ⟨.err (.inputLenMismatch i.parts.length
       (if i.weights.length ≠ i.parts.length then i.weights.length else i.points)), .none⟩ := by
   prologue_unfold
   prologue_cases
+
+/-- … in particular on a point set on which the frame computation panics (finite coordinates whose
+squares overflow, finding K8). -/
+example : run {} .rib { parts := [7, 7, 7], weights := [1, 2], points := 3, obbOk := false }
+    = ⟨.err (.inputLenMismatch 3 2), .none⟩ := by decide
 
 example : run {} .rib { parts := [5], weights := [1], points := 0 }
     = ⟨.err (.inputLenMismatch 1 0), .none⟩ := by decide
@@ -316,9 +320,17 @@ theorem arcswap_old_order_ok_on_mismatch :
 /-- Rib, old order: an empty point set returned `Ok` before rcb's checks. -/
 theorem rib_old_order_ok_on_mismatch :
     run { oldRib := true } .rib { parts := [7, 7], weights := [1], points := 0 } = ⟨.ok, .none⟩ := by decide
+/-- Rib, previous order (the oriented bounding box first): on a point set on which the frame
+computation panics (finite coordinates whose squares overflow, K8) a length mismatch was never
+reported. `points = [(1e200, 0), (-1e200, 1), (0, 3)]`, two weights, three ids: panic at
+`geometry.rs:316` instead of `InputLenMismatch { expected: 3, actual: 2 }`. -/
+theorem rib_obb_first_panics_on_mismatch :
+    run { ribObbFirst := true } .rib { parts := [7, 7, 7], weights := [1, 2], points := 3, obbOk := false }
+      = ⟨.panic .floatOutOfModel, .none⟩ := by decide
 
 end Coupe.Prologue
 
+#print axioms Coupe.Prologue.rib_obb_first_panics_on_mismatch
 #print axioms Coupe.Prologue.error_enum_matches_source
 #print axioms Coupe.Prologue.rcb_len_mismatch_reported
 #print axioms Coupe.Prologue.rib_len_mismatch_reported
